@@ -127,6 +127,7 @@ pub fn exec_configs(
 ) {
   let mut reference: Option<(String, Vec<Value>)> = None;
   for cfg in cfgs {
+    util::set_context(json!({"engine": "configs", "cfg": cfg.label(), "history": e.rendered, "one_update": batch}).to_string());
     restore();
     let (index, _dir) = match fresh(cfg) {
       Ok(x) => x,
@@ -143,7 +144,7 @@ pub fn exec_configs(
       if batch && bi + 1 < blocks.len() {
         continue;
       }
-      match util::catch(|| index.update()) {
+      match util::catch(|| util::watched(|| index.update())) {
         Ok(Ok(())) => {}
         Ok(Err(err)) => {
           e.fail("C16", "update/error", format!("configuration {}: Index::update returned an error on a valid chain: {err:#}", cfg.label()));
